@@ -2,6 +2,7 @@ package checks
 
 import (
 	"fmt"
+	"github.com/bufbuild/buf/private/pkg/thread"
 	"math/rand/v2"
 	"os"
 	"path/filepath"
@@ -50,10 +51,19 @@ func c03Schemas(tier string) int {
 // c03Schema regenerates schema number si (the same for every operator group).
 func c03Schema(seed uint64, si int) *gen.Schema {
 	r := core.RandFor(seed, "C03", si, "schema")
-	s := gen.Generate(r, c03GenConfig(r))
+	cfg := c03GenConfig(r)
+	if c03Wide(si) {
+		// many files: with the parallelism lowered (c03Run) the images take the chunked, parallel file
+		// conversion of bufprotosource, which small modules never reach
+		cfg.Modules, cfg.MinFiles, cfg.MaxFiles, cfg.CustomOptions = 2, 10, 12, false
+	}
+	s := gen.Generate(r, cfg)
 	c03Enrich(r, s)
 	return s
 }
+
+// c03Wide: every fifth schema is a wide one (≥ 20 files), compared under a parallelism of 2 or 3.
+func c03Wide(si int) bool { return si%5 == 4 }
 
 func containsAny(msg string, toks []string) bool {
 	for _, t := range toks {
@@ -214,6 +224,16 @@ func c03Run(c *core.C, idx int) {
 		return
 	}
 	oldIdx := c03Index(s)
+	if c03Wide(si) {
+		oldPar := thread.Parallelism()
+		par := 2 + si%2
+		thread.SetParallelism(par)
+		defer thread.SetParallelism(oldPar)
+		if n := len(oldImg.Files()); n/par >= 8 {
+			c.Count("cases_on_parallel_file_conversion", 1)
+			c.Distinct("parallel_file_conversion", fmt.Sprintf("files=%d parallelism=%d remainder=%d", n, par, n%par))
+		}
+	}
 	maxSites := c.Pick(2, 4)
 	for oi, op := range c03Catalogue {
 		if oi%c03Groups != grp {
@@ -431,7 +451,7 @@ func init() {
 	for _, r := range c03AllRuleIDs {
 		required = append(required, "rule:"+r)
 	}
-	required = append(required, "applications", "expectations_checked", "cli_comparisons", "cli_expectations_checked")
+	required = append(required, "applications", "cases_on_parallel_file_conversion", "expectations_checked", "cli_comparisons", "cli_expectations_checked")
 	core.Register(&core.Check{
 		ID:    "C03",
 		Level: "exploration",
